@@ -3,7 +3,7 @@
 //! this library) under Miri: a seeded, replayable scheduler that preempts at basic-block
 //! granularity and reports data races and undefined behaviour.
 //!
-//! usage: paseto-miri <scenario> ; scenarios: local4 public4 local2 wrap4 parse
+//! usage: paseto-miri <scenario> ; scenarios: local4 public4 local2 wrap4 parse refresh4
 //! The Miri seed (-Zmiri-seed / -Zmiri-many-seeds) decides scheduling *and* the bytes the
 //! (isolated) getrandom shim returns, so one seed is one repeatable execution.
 
@@ -47,6 +47,33 @@ fn local4() {
         h.join().unwrap();
     }
     assert_eq!(Arc::strong_count(&key), 1);
+}
+
+/// token refresh on shared keys: the object returned by decrypt is encrypted again (buffer reuse
+/// between the two halves would show here as UB or as a repeated nonce)
+fn refresh4() {
+    use paseto_v4::{EncryptedToken, LocalKey, UnencryptedToken};
+    let key = Arc::new(LocalKey::random().unwrap());
+    let mut hs = Vec::new();
+    for t in 0..3u32 {
+        let key = key.clone();
+        hs.push(thread::spawn(move || {
+            let claims = serde_json::json!({"t": t, "pad": "y".repeat(t as usize * 11)});
+            let mut tok = UnencryptedToken::new(Json(claims.clone())).with_footer(vec![7u8; t as usize]).encrypt(&key).unwrap().to_string();
+            for _ in 0..3 {
+                let parsed: EncryptedToken<Json<V>, Vec<u8>> = tok.parse().unwrap();
+                let out = parsed.decrypt(&key, &NoValidation::dangerous_no_validation()).unwrap();
+                assert_eq!(out.claims.0, claims);
+                let again = out.encrypt(&key).unwrap().to_string();
+                assert_ne!(again, tok);
+                assert_ne!(again[9..9 + 40], tok[9..9 + 40], "refreshed token repeats the nonce");
+                tok = again;
+            }
+        }));
+    }
+    for h in hs {
+        h.join().unwrap();
+    }
 }
 
 fn local2() {
@@ -148,6 +175,7 @@ fn main() {
     match which.as_str() {
         "local4" => local4(),
         "local2" => local2(),
+        "refresh4" => refresh4(),
         "public4" => public4(),
         "wrap4" => wrap4(),
         "parse" => parse(),
